@@ -460,3 +460,5 @@ def run(ctx):
     from .. import tstate
     r8 = ctx.rule('C13.R8', 'TSTATE', 'no message is generated with a head after its head: the predicate that admits interim (1xx) HEADERS, State::is_send_awaiting_headers, agrees with the reference on all 15 states (true only while the final response head has not been sent)')
     tstate.predicates(r8, ctx.facts, ['is_send_awaiting_headers'])
+    from .. import boundaries as _b
+    _b.check_counts(ctx, 'C13.RQ', 'C13')
